@@ -286,6 +286,7 @@ class C23(AMachine):
             "start of the program (block starts, mid-block, loop bodies, never reached), callbacks that stop the run; expected "
             "invocations are computed from the reference pc sequence, not from miasm's breakpoint code")
     actors = ["debugger", "tuner"]
+    must_features = ["loop"]     # loop heads: addresses that start one block and lie inside another
     expected_probes = ["debugger_bp_add", "debugger_bp_set", "debugger_remove_by_address", "debugger_remove_by_callback",
                        "bp_hit", "bp_callback_stops_run", "bp_removed_from_inside_callback", "hits_judged", "runs_completed",
                        "bp_on_branch_target", "warm_start"]
@@ -296,7 +297,7 @@ class C23(AMachine):
         for _ in range(n):
             r = rng.random()
             cp = rng.choice([1, 1, self._cp(rng)])
-            where = ["L", rng.randrange(16)] if rng.random() < 0.45 else rng.randrange(200)
+            where = ["L", rng.randrange(16)] if rng.random() < 0.6 else rng.randrange(200)
             if r < 0.5:
                 acts.append([cp, "bp_add", where, rng.randrange(3)])
             elif r < 0.6 and not steer:
